@@ -113,6 +113,10 @@ def run_p(report: Report, prop: str, tier: str, targets: Optional[List[str]] = N
         for a in r["assumed_calls"]:
             if a not in report.assumptions:
                 report.assumptions.append(a)
+        cobj = reg.contract_for(t)
+        for a in getattr(cobj, "assumptions", []) if cobj is not None else []:
+            if a not in report.assumptions:
+                report.assumptions.append(a)
         names: Dict[str, int] = {}
         for v in r["verdicts"]:
             names[v["name"]] = names.get(v["name"], 0) + 1
